@@ -112,6 +112,11 @@ def unnest(select, parent_select, next_alias_name):
         if not predicate or parent_select is not predicate.parent_select:
             return
 
+    # The join-based rewrite turns an unknown (NULL) membership test into FALSE, which is only
+    # equivalent where the truth value merely filters rows
+    if not _only_filters_rows(predicate, clause):
+        return
+
     column = _other_operand(predicate)
     value = select.selects[0]
 
@@ -327,6 +332,19 @@ def decorrelate(select, parent_select, external_columns, next_alias_name):
         join_alias=table_alias,
         copy=False,
     )
+
+
+def _only_filters_rows(predicate: exp.Expr, clause: exp.Expr | None) -> bool:
+    if clause is None:
+        return False
+
+    node = predicate
+    while node.parent is not None and node.parent is not clause:
+        node = node.parent
+        if not isinstance(node, (exp.Paren, exp.And, exp.Or)):
+            return False
+
+    return node.parent is clause
 
 
 def _is_negated(expression: exp.Expression) -> bool:
